@@ -15,6 +15,9 @@ SMODE = {0: "SRaw", 1: "SSnappy", 2: "SZstd", 3: "SLz4"}
 
 
 def zl(xs):
+    xs = list(xs)
+    if len(xs) > 4096 and len(set(xs)) == 1:
+        return "(repeat %d %d%%nat)" % (int(xs[0]), len(xs))
     return "[" + ";".join(str(int(x)) for x in xs) + "]"
 
 
@@ -76,7 +79,7 @@ def case_term(c):
         m = SMODE[mode] if mode != -1 else "SRaw"
         ss = "[" + ";".join(bl(s) for s in c.get("strs", [])) + "]"
         return "(check_string %s %s %s %s %s)" % (d, cc, m, ss, real)
-    if k == "record":
+    if k in ("record", "file"):
         return None     # direct oracle only
     if k == "rows":
         if not c.get("rowsj") or c.get("oracle") in ("decode-panic", "decode-error", "roundtrip-differs"):
@@ -209,6 +212,119 @@ def sig_negzero(c):
             and c.get("dec") == [0] * len(v))
 
 
+I64MAX, I64MIN = (1 << 63) - 1, -(1 << 63)
+F64MAX = struct.unpack("<d", struct.pack("<Q", 0x7FEFFFFFFFFFFFFF))[0]
+
+
+def s64(u):
+    return u - (1 << 64) if u >= M63 else u
+
+
+def emulate_stats(c, se, col):
+    """the statistics today's builders store for one column of one series: sentinel start values, strict comparisons,
+    per-segment accumulation, single-value marshalling (min, minT only); bool: the time column is indexed with the
+    position among the non-null values of the segment. Returns [min, minT, max, maxT, count, sum] as 64-bit patterns."""
+    lim, n, t = c["lim"], len(se["times"]), col["t"]
+    if t == "int":
+        mn, mx, sm = I64MAX, I64MIN, 0
+    elif t == "float":
+        mn, mx, sm = F64MAX, -F64MAX, 0.0
+    else:
+        mn, mx, sm = 2, -1, 0
+    mnT = mxT = cnt = 0
+    for lo in range(0, n, lim):
+        j = 0
+        for i in range(lo, min(lo + lim, n)):
+            if col["nulls"][i]:
+                continue
+            u = col["vals"][i]
+            v = s64(u) if t == "int" else f64(u) if t == "float" else u
+            tm = se["times"][lo + j] if t == "bool" else se["times"][i]
+            j += 1
+            cnt += 1
+            if mn > v:
+                mn, mnT = v, tm
+            if mx < v:
+                mx, mxT = v, tm
+            if t == "int":
+                sm = s64((sm + v) & ((1 << 64) - 1))
+            elif t == "float":
+                sm += v
+    if cnt == 1 and t != "bool":
+        mx, mxT, sm = mn, mnT, mn
+    pat = (lambda x: x & ((1 << 64) - 1)) if t != "float" else (lambda x: struct.unpack("<Q", struct.pack("<d", x))[0])
+    return [pat(mn), mnT, pat(mx), mxT, cnt, 0 if t == "bool" else pat(sm)]
+
+
+def stat_col(c, f):
+    se = c["series"][f["series"]]
+    t = f.get("col", "")[6:]
+    col = [x for x in se["cols"] if x["t"] == t]
+    return (se, col[0]) if col and f.get("stored") else (se, None)
+
+
+def stored_matches(st, emu, t):
+    if t == "float":    # sums are compared as numbers (-0.0 == +0.0)
+        return st[:5] == emu[:5] and (st[5] == emu[5] or f64(st[5]) == f64(emu[5]))
+    return st == emu
+
+
+def sig_bool_stat(c, f):
+    """C07-bool-preagg-time-index: statistics of a boolean column that holds at least one null: what is stored is exactly
+    what today's builder computes when it indexes the time column with the position among the non-null values of the
+    segment instead of the row number (BooleanPreAgg.addValues); stored min/max values and count are right."""
+    if f.get("col") != "stats:bool":
+        return False
+    se, col = stat_col(c, f)
+    return col is not None and any(col["nulls"]) and stored_matches(f["stored"], emulate_stats(c, se, col), "bool")
+
+
+def sig_sentinel_stat(c, f):
+    """C07-preagg-sentinel-init: statistics of an integer (float) column whose minimum equals MaxInt64 (is +Inf) or
+    whose maximum equals MinInt64 (is -Inf): what is stored is exactly what today's builders compute - they start from
+    MaxInt64/MinInt64 (+-MaxFloat64) with strict comparisons, so such an extreme never registers its time (and, for
+    floats, its value)."""
+    if f.get("col") not in ("stats:int", "stats:float"):
+        return False
+    se, col = stat_col(c, f)
+    if col is None:
+        return False
+    vals = [col["vals"][i] for i in range(len(se["times"])) if not col["nulls"][i]]
+    if not vals:
+        return False
+    if col["t"] == "int":
+        sv = [s64(u) for u in vals]
+        extreme = min(sv) == I64MAX or max(sv) == I64MIN
+    else:
+        fv = [f64(u) for u in vals]
+        if any(math.isnan(x) for x in fv):
+            return False
+        extreme = min(fv) > F64MAX or max(fv) < -F64MAX or min(fv) == F64MAX or max(fv) == -F64MAX
+    return extreme and stored_matches(f["stored"], emulate_stats(c, se, col), col["t"])
+
+
+FILE_SIGS = [("C07-bool-preagg-time-index", sig_bool_stat,
+              "stored min/max times of a boolean column with nulls are taken at the wrong rows"),
+             ("C07-preagg-sentinel-init", sig_sentinel_stat,
+              "stored statistics miss an extreme value equal to the builders' start value (MaxInt64/MinInt64, +-Inf)")]
+
+
+def file_fail_finding(ck, c, f):
+    for fid, sig, what in FILE_SIGS:
+        if sig(c, f) and ck.match_finding(fid):
+            return fid, what
+    return None, None
+
+
+def sig_same_u16(c):
+    """C07-samevalue-u16-len: float block of at least 65536 values, all with the same bit pattern (same-value mode,
+    tag 4), read back as len mod 65536 values (the count is stored in 16 bits)."""
+    if c["k"] != "float" or c.get("oracle") != "roundtrip-differs" or c.get("mode") != 4:
+        return False
+    v = c["vals"]
+    return len(v) >= 65536 and len(set(v)) == 1 and c.get("dec") == v[:len(v) % 65536]
+
+
 def sig_wal_header(c):
     """C07-wal-header-only-tail: the only strict prefixes of a record the real replay failed to reject are the ones of
     length exactly 5 (= WalRecordHeadSize: header complete, not one payload byte), alone (5) or after a complete copy of
@@ -228,6 +344,8 @@ def nontrivial(c):
         return c.get("typ", 0) > 0
     if c["k"] == "col":
         return c.get("typ", 0) > 0
+    if c["k"] == "file":
+        return len(c.get("series", [])) > 0
     if c["k"] == "rows":
         return c.get("npref", 0) > 10
     if c["k"] == "frame":
@@ -237,6 +355,34 @@ def nontrivial(c):
     if c["k"] == "string":
         return c.get("mode", -1) >= 1 or len(c.get("strs", [])) > 1
     return c.get("mode", -1) in ((1, 2, 3) if c["k"] in ("int", "time") else (2, 3, 4, 5, 6))
+
+
+def consts_text(obj):
+    """Gen_Consts.v from the output of `c07 consts` (constants evaluated by the Go compiler)"""
+    c = obj["consts"]
+    names = sorted(c)
+    lines = ["(* GENERATED by props/C07/run.py from the Go constants of the repository (harness `c07 consts`:",
+             "   lib/encoding, lib/compress, simple8b, engine WAL, lib/util). Do not edit. *)",
+             "From Coq Require Import ZArith List.", "Import ListNotations.", "Open Scope Z_scope."]
+    for k in names:
+        lines.append("Definition g_%s : Z := %d." % (k, c[k]))
+    lines.append("Definition g_s8_table : list (Z * Z) := [%s]." % "; ".join("(%d, %d)" % (a, b) for a, b in obj["s8"]))
+    lines.append("Ltac g_unfold := unfold %s in *." % ", ".join("g_" + k for k in names))
+    return "\n".join(lines) + "\n"
+
+
+def gen_consts(ck, binp):
+    rc, out = ck.run([binp, "consts"], timeout=120)
+    obj = None
+    for l in out.splitlines():
+        if l.startswith('{"consts"'):
+            obj = json.loads(l)
+    if rc != 0 or obj is None:
+        ck.broken.append("harness `c07 consts` failed: " + out[-300:])
+        return False
+    ck.write_gen("C07/Gen_Consts.v", consts_text(obj))
+    ck.cov["generated_constants"] = len(obj["consts"]) + len(obj["s8"])
+    return True
 
 
 def run_harness(ck, binp, n, extra, seed=None):
@@ -311,6 +457,22 @@ def classify(ck, cases, codes, stats):
     for i, c in enumerate(cases):
         code = codes[i]
         orc = c.get("oracle")
+        if orc and c["k"] == "file" and c.get("fails"):
+            # every difference found in the file is classified on its own
+            unknown = []
+            for f in c["fails"]:
+                fid, what = file_fail_finding(ck, c, f)
+                if fid:
+                    ck.known_finding(fid, what)
+                    stats["known"][fid] = stats["known"].get(fid, 0) + 1
+                else:
+                    unknown.append(f)
+            if unknown:
+                if len(ck.violations) < 5:
+                    ck.violation({"kind": "direct-oracle", "what": orc, "case": slim(c), "differences": unknown[:5],
+                                  "explanation": "whole data file: what the real reader returns differs from what was written"})
+                stats["violations"] += 1
+            continue
         if orc:
             # the property statement itself fails on the real code
             fid = None
@@ -320,11 +482,15 @@ def classify(ck, cases, codes, stats):
                 fid = "C07-negzero-same"
             elif sig_wal_header(c) and code == 0:
                 fid = "C07-wal-header-only-tail"
+            elif sig_same_u16(c) and code is not None and (code & 15) == 1 and (code >> 4) == 1:
+                fid = "C07-samevalue-u16-len"
             if fid and ck.match_finding(fid):
                 what = {"C07-gorilla-error-path": "float block encoder panics (gorilla encoder error examined after re-slicing)",
                         "C07-negzero-same": "float column of -0.0/+0.0 stored in same-value mode reads back as +0.0",
                         "C07-wal-header-only-tail": "WAL record cut exactly after its 5-byte header is not recognised as "
-                                                    "incomplete: stale buffer content is decoded and delivered as a record"}[fid]
+                                                    "incomplete: stale buffer content is decoded and delivered as a record",
+                        "C07-samevalue-u16-len": "float block of >= 65536 equal values stores its count in 16 bits and reads "
+                                                 "back truncated (reachable with max-rows-per-segment > 65535)"}[fid]
                 ck.known_finding(fid, what)
                 stats["known"][fid] = stats["known"].get(fid, 0) + 1
             else:
@@ -355,20 +521,27 @@ def main(ck):
     ck.cov["trusted_base"] = ["Coq 8.16.1 kernel + vm_compute (cases evaluation, Examples, Refuted witnesses)",
                               "Go harness cmd/c07 (generators, mode/selector/run extraction from the real bytes), python driver props/C07/run.py",
                               "no axioms; third-party behaviour as Section hypotheses (see print_assumptions)"]
+    # findings of this property's fragment that the merged known_findings.json does not carry yet (read-only; the
+    # merged file wins for ids it knows)
+    frag = os.path.join(ck.verif, "props", PID, "findings.json")
+    have = {f["id"] for f in ck.findings}
+    ck.findings += [f for f in json.load(open(frag))["findings"] if f["property"] == PID and f["id"] not in have]
+    binp = ck.go_build("./cmd/c07", "c07")
+    if not binp:
+        return
+    if not gen_consts(ck, binp):     # translator: Gen_Consts.v is rewritten (only when it changed) before the proofs are built
+        return
     ck.coq_audit(["C07"])
     ok = ck.coq_build(["C07/Props.vo", "C07/Refuted.vo", "C07/Corr.vo"])
     if ok:
         ck.coq_props(["C07/Props.v", "C07/Refuted.v"])
-    binp = ck.go_build("./cmd/c07", "c07")
-    if not binp:
-        return
     n = 800 if ck.tier == "quick" else 16000
     extra = [os.path.join(ck.verif, "corpus", PID)]
     if getattr(ck, "replay", None):
         rp = json.load(open(ck.replay))
         cf = os.path.join(ck.work, "replay.case")
         open(cf, "w").write(json.dumps({k: v for k, v in rp.get("case", {}).items()
-                                        if k in ("k", "vals", "strs", "algo", "typ", "payload", "lim", "cols", "seed")}) + "\n")
+                                        if k in ("k", "vals", "strs", "algo", "typ", "payload", "lim", "cols", "seed", "series", "rep")}) + "\n")
         n, extra = 0, [cf]
     cases, err = run_harness(ck, binp, n, extra)
     if err:
@@ -388,7 +561,9 @@ def main(ck):
             for c in more:
                 if c.get("oracle") and not ((sig_gorilla(c) and ck.match_finding("C07-gorilla-error-path")) or
                                             (sig_negzero(c) and ck.match_finding("C07-negzero-same")) or
-                                            (sig_wal_header(c) and ck.match_finding("C07-wal-header-only-tail"))):
+                                            (sig_wal_header(c) and ck.match_finding("C07-wal-header-only-tail")) or
+                                            (sig_same_u16(c) and ck.match_finding("C07-samevalue-u16-len")) or
+                                            (c["k"] == "file" and c.get("fails") and all(file_fail_finding(ck, c, f)[0] for f in c["fails"]))):
                     ck.violation({"kind": "direct-oracle", "what": c["oracle"], "case": slim(c),
                                   "explanation": "found by the fresh stream after a model/implementation disagreement"})
                     stats["violations"] += 1
@@ -412,7 +587,7 @@ def main(ck):
         sk = "%s/%s" % (c["k"], c.get("shape"))
         shapes[sk] = shapes.get(sk, 0) + 1
         if nontrivial(c):
-            seen.add(json.dumps([c["k"], c.get("vals"), c.get("strs"), c.get("algo"), c.get("typ"), c.get("payload"), c.get("shape"), c.get("cols"), c.get("seed")]))
+            seen.add(json.dumps([c["k"], c.get("vals"), c.get("strs"), c.get("algo"), c.get("typ"), c.get("payload"), c.get("shape"), c.get("cols"), c.get("seed"), c.get("series")]))
     ck.cov["evaluations"] = len(cases)
     ck.cov["distinct_nontrivial"] = len(seen)
     ck.cov["traces_validated_against_impl"] = sum(1 for i, c in enumerate(cases) if codes[i] is not None) - len(mism)
